@@ -153,7 +153,8 @@ def gen_command_script(rnd):
     ns = set()
     for f in forms + ints + bvs:
         ns |= {n for (n, _) in all_symbols(f)}
-    m = names.hostile_mapping(rnd, ns, pct=35)
+    FNS = {n for f in forms + ints + bvs for (n, ty_) in all_symbols(f) if is_fun(ty_)}
+    m = names.hostile_mapping(rnd, ns, pct=35, functions=FNS)
     forms = [names.rename(f, m) for f in forms]
     ints = [names.rename(f, m) for f in ints]
     bvs = [names.rename(f, m) for f in bvs]
@@ -471,7 +472,8 @@ def shard(shard, seed, n, part):
             g = G(cfg=RT_CFGS[shard % len(RT_CFGS)], rnd=rnd)
             t = g.term(BOOL if g.pct(70) else g.ty())
             ns = {x for (x, _) in all_symbols(t)}
-            m = names.hostile_mapping(rnd, ns, pct=50, allow_bar_backslash=True)
+            FNS = {x for (x, ty_) in all_symbols(t) if is_fun(ty_)}
+            m = names.hostile_mapping(rnd, ns, pct=50, allow_bar_backslash=True, functions=FNS)
             check_roundtrip(run, names.rename(t, m), g, g.cards())
         elif part == "script":
             text, tags = gen_command_script(rnd)
